@@ -3,6 +3,7 @@ import itertools
 from .. import common as C, structs as S, valgen as V, refcodec as R
 
 LEAN_MODULES = ["ZvtVerif.Properties.C04"]
+TRANSLATED = {"structs"}      # translated tables this property consumes (a translator problem elsewhere does not break its tie)
 ASSUMPTIONS = ["tokio's read_exact; the in-memory reader returns Pending (and wakes) between chunks; `read@D`: D virtual seconds pass between two chunks (paused clock)",
                "the Lean model carries chunk-independence and framing; the executor is exercised by the harness only"]
 
